@@ -24,14 +24,48 @@ def check(ctx, case):
 	dists = np.array(case['dists'], dtype=np.float32)
 	thr_s, ds_s = T.scale_all(thr, [float(x) for x in dists])
 	ftok = T.forest_token(parent, thr_s, report)
-	taxa = T.build_taxa(parent, thr, report)
+	sc = db = None
+	if case.get('via') == 'db':
+		# persisted objects: a scratch database built with the repo's models, loaded through ReferenceDatabase
+		import dbutil
+		from gambit.kmers import KmerSpec
+		from gambit.db import ReferenceDatabase
+		sc = dbutil.Scratch('gv_c03_')
+		tspec = [{'name': f'T{i}', 'key': f'T{i}', 'parent': p, 'thr': thr[i], 'report': bool(report[i])} for i, p in enumerate(parent)]
+		gspec = [{'key': f'g{i}', 'taxon': t} for i, t in enumerate(gtax)]
+		dbutil.build_refdb(sc.dir, taxa=tspec, genomes=gspec, kspec=KmerSpec(5, 'AT'), sigs=[[i] for i in range(len(gtax))])
+		db = ReferenceDatabase.load_from_dir(sc.dir)
+		genomes = list(db.genomes)
+		assert [g.key for g in genomes] == [f'g{i}' for i in range(len(gtax))]
+		byname = {t.name: t for t in db.genomeset.taxa}
+		taxa = [byname[f'T{i}'] for i in range(len(parent))]
+	else:
+		taxa = T.build_taxa(parent, thr, report)
+		genomes = T.build_genomes(taxa, gtax)
 	tix = T.idx_of(taxa)
-	genomes = T.build_genomes(taxa, gtax)
 	gix = T.idx_of(genomes)
-	ti = lambda t: None if t is None else tix[id(t)]
+	ti = lambda t: None if t is None else tix.get(id(t), 999999)   # 999999 = an object that does not belong to this taxonomy
 	lines, pf = [], []
 	try:
-		if case.get('via') == 'classify':
+		return _check_with(ctx, case, taxa, genomes, tix, gix, ti, dists, ftok, gtax, ds_s, db)
+	finally:
+		if db is not None:
+			db.signatures.close(); db.session.close()
+		if sc is not None:
+			sc.cleanup()
+
+
+def _check_with(ctx, case, taxa, genomes, tix, gix, ti, dists, ftok, gtax, ds_s, db):
+	import numpy as np
+	from gambit.classify import classify, matching_taxon, GenomeMatch
+	from gambit.query import get_result_item, QueryParams, QueryInput
+	from gambit.db import reportable_taxon
+	lines, pf = [], []
+	try:
+		if db is not None:
+			item = get_result_item(db, QueryParams(), dists, QueryInput('q'))
+			res, rep = item.classifier_result, item.report_taxon
+		elif case.get('via') == 'classify':
 			res = classify(genomes, dists, strict=False)
 			rep = reportable_taxon(res.predicted_taxon)
 		else:
@@ -83,6 +117,15 @@ def run(ctx):
 					dists = [d0 if g == (n - 1) else min(1.0, d0 + rng.choice([0.0, 0.1, 0.3])) for g in range(n)]
 					sub({'parent': parent, 'thr': list(thr), 'report': report, 'gtax': gtax, 'dists': dists, 'via': rng.choice(['item', 'classify'])}, f'exh-n{n}')
 	ctx.exhaustive = [f'all forests with <= {nmax} nodes x all threshold patterns over (none,.2,.5) x 5 distances']
+	# persisted databases: several different ones in this one process (same primary keys, different flags / thresholds)
+	for j in range(ctx.q(60, 600)):
+		if not ctx.time_left(0.5):
+			break
+		n = rng.randint(1, 6)
+		parent = T.rand_forest(rng, n, deep=rng.random() < 0.5)
+		ng = rng.randint(1, 5)
+		sub({'parent': parent, 'thr': T.rand_thr(rng, n, p_none=0.3), 'report': [rng.random() < 0.6 for _ in range(n)], 'gtax': [rng.randrange(n) for _ in range(ng)],
+		     'dists': [float(x) for x in T.rand_dists(rng, ng)], 'via': 'db'}, 'persisted-db')
 	for j in range(ctx.q(2500, 40000)):
 		if not ctx.time_left(0.9):
 			break
